@@ -390,6 +390,54 @@ def toReaction (allowed : Allowed) (token : Str) (line : Str) : Except Err React
   | .error e => .error e
   | .ok raw => mkReaction raw
 
+/-! ### the parameter text: `'k'` or an expression -/
+
+/-- what `to_reaction` does with the (stripped) parameter text -/
+inductive ParamKind
+  /-- `'name'`: `MassAction(Symbol(unique_keys=(name,)))`, no `eval` -/
+  | symbol (name : Str)
+  /-- anything else: the text is handed to `eval` (or dropped when `globals_ is False`) -/
+  | expr (text : Str)
+  deriving DecidableEq, Repr
+
+/-- `if param.startswith("'") and param.endswith("'") and "'" not in param[1:-1]` -/
+def classifyParam (p : Str) : ParamKind :=
+  if startsWith ['\''] p && endsWith ['\''] p && !(inner p).contains '\'' then .symbol (inner p) else .expr p
+
+/-! ### the `checks` / `dont_check` arguments of the constructor -/
+
+inductive CheckErr
+  | both        -- ValueError("Cannot specify both checks and dont_check")
+  | unknownCheck  -- AttributeError: no method check_<name>
+  | failed      -- ValueError raised by a check
+  deriving DecidableEq, Repr
+
+/-- one named check with `throw=True` -/
+def Reaction.runCheck (r : Reaction) (name : String) : Except CheckErr Unit :=
+  if name == "any_effect" then (if r.anyEffect then .ok () else .error .failed)
+  else if name == "all_positive" then (if r.allPositive then .ok () else .error .failed)
+  else if name == "all_integral" then (if r.allIntegral then .ok () else .error .failed)
+  else if name == "consistent_units" then .ok ()       -- unit-less parameter: always True
+  else .error .unknownCheck
+
+/-- `checks = self.default_checks ^ (dont_check or set())` – a symmetric difference: a name that is not a default check is ADDED -/
+def symDiff (a b : List String) : List String := a.filter (fun x => !b.contains x) ++ b.filter (fun x => !a.contains x)
+
+/-- the tail of `Reaction.__init__`: which checks run, and their verdict (the set order of Python is not modelled:
+    the first failure in list order is reported, the harness never mixes an unknown name with a failing check) -/
+def Reaction.runChecks (r : Reaction) : List String → Except CheckErr Unit
+  | [] => .ok ()
+  | c :: cs =>
+    match r.runCheck c with
+    | .ok () => r.runChecks cs
+    | .error e => .error e
+
+def Reaction.initChecks (r : Reaction) (checks dontCheck : Option (List String)) : Except CheckErr Reaction :=
+  match checks, dontCheck with
+  | some _, some _ => .error .both
+  | some cs, none => (r.runChecks cs.eraseDups).map fun _ => r
+  | none, dc => (r.runChecks (symDiff Printing.defaultChecks ((dc.getD []).eraseDups))).map fun _ => r
+
 /-! ### `__eq__`, `copy` -/
 
 /-- `OrderedDict.__eq__(OrderedDict)`: same length, same keys in the same order, equal values (2 == 2.0) -/
@@ -458,6 +506,19 @@ def printReaction (arrow : Str) (withParam withName : Bool) (r : Reaction) : Opt
     some (match withName, r.name with
       | true, some n => s1 ++ Printing.paramSeparator ++ n
       | _, _ => s1)
+
+/-- `str_(rxn, **settings)` with extra settings: an unknown setting name is refused by `Printer.__init__`
+    (`ValueError("Unknown setting …")`); with `fallback_print_fn=None` a species key (a plain `str`) cannot be printed
+    (`ValueError("Don't know how to print …")`) – raised as soon as one term is printed -/
+inductive PrintErr
+  | unknownSetting | cannotPrint
+  deriving DecidableEq, Repr
+
+def printReactionWith (settingNames : List String) (noFallback : Bool) (arrow : Str) (withParam withName : Bool)
+    (r : Reaction) : Except PrintErr (Option Str) :=
+  if settingNames.any (fun k => !Printing.settingKeys.contains k) then .error .unknownSetting
+  else if noFallback && r.allDicts.any (fun d => d.any (fun kv => kv.2.val != 0)) then .error .cannotPrint
+  else .ok (printReaction arrow withParam withName r)
 
 /-! ### `ReactionSystem.from_string` / `_print_ReactionSystem` -/
 
